@@ -122,7 +122,12 @@ MbBits(mb, intraPic, ver1, umv) ==
                       \o BlockBits(mb.b[4], ver1) \o BlockBits(mb.b[5], ver1) \o BlockBits(mb.b[6], ver1)
 Ver1(pic) == pic.hk = "sor" /\ pic.ver = 1
 IntraPic(pic) == pic.pt = "I"
-MbsBits(pic) == ConcatAll([i \in 1..Len(pic.mbs) |-> MbBits(pic.mbs[i], IntraPic(pic), Ver1(pic), Umv(pic))])
+(* "rep": the single macroblock of pic.mbs stands for pic.rep equal macroblocks (very large pictures: the bits are laid out   *)
+(* as one function instead of being concatenated macroblock by macroblock)                                                  *)
+RepeatBits(m, n) == [k \in 1..(n * Len(m)) |-> m[((k - 1) % Len(m)) + 1]]
+MbsBits(pic) == IF "rep" \in DOMAIN pic
+                THEN RepeatBits(MbBits(pic.mbs[1], IntraPic(pic), Ver1(pic), Umv(pic)), pic.rep)
+                ELSE ConcatAll([i \in 1..Len(pic.mbs) |-> MbBits(pic.mbs[i], IntraPic(pic), Ver1(pic), Umv(pic))])
 (* the picture without its trailing padding; EndLen = number of bits up to the end of the last macroblock *)
 PictureBits(pic) == HeaderBits(pic) \o MbsBits(pic)
 (* a picture is followed by fewer than eight zero bits up to the next byte boundary *)
